@@ -546,7 +546,7 @@ pub const VALUE_ALPHABET: [&str; 13] =
 
 pub fn key() -> BoxedStrategy<String> {
     prop_oneof![
-        3 => proptest::sample::select(vec!["rt", "if", "title", "title*", "ct", "sz", "obs", "anchor", "rel", "rel", "rev", "type", "hreflang", "media"]).prop_map(String::from),
+        3 => proptest::sample::select(vec!["rt", "if", "title", "title*", "ct", "sz", "obs", "anchor", "rel", "rel", "rev", "type", "hreflang", "media", "lt", "ep", "d", "gp", "et", "base", "con", "ins", "exp", "count", "title*", "REL", "Title"]).prop_map(String::from),
         2 => "[A-Za-z0-9*_.-]{1,8}",
         1 => "[a-zéλж*]{1,6}",
     ]
@@ -570,6 +570,8 @@ pub fn value_text() -> BoxedStrategy<String> {
         2 => "\\PC{0,40}",
         1 => ("[a-z\",;\\\\ é]{1,6}", 50usize..2000).prop_map(|(u, n)| u.repeat(n / 4)),
         1 => "[\"\\\\,;<>= \\n\\ra1]{0,40}",
+        // RFC 8187 extended values as used with title*
+        1 => ("utf-8'(en|de-CH|)'", "[a-zA-Z%0-9;,=' ]{0,14}", proptest::sample::select(vec!["", " ", "\u{a0}"])).prop_map(|(p, t, e): (String, String, &str)| format!("{p}{t}{e}")),
         // control characters (C0, DEL, C1) and code points whose low byte is a quote / backslash
         1 => "[\\x00\\x01\\x07\\x1B\\x7F\u{80}\u{85}\u{9F}\u{122}\u{15C}\u{1F422}a\" ]{0,12}",
     ]
@@ -811,11 +813,20 @@ pub fn run_c18(ctx: &Ctx, rep: &mut Report) {
             directed.push(Doc { links: bare, newlines });
         }
     }
+    // long documents: more links than a byte can count
+    for newlines in [false, true] {
+        let bare = (0..300usize).map(|i| Link { target: format!("t{i}"), attrs: vec![] }).collect();
+        directed.push(Doc { links: bare, newlines });
+    }
+    let with_attr = (0..260usize)
+        .map(|i| Link { target: format!("/l{i}"), attrs: vec![("ct".into(), AttrVal::U32((i % 3) as u32))] })
+        .collect();
+    directed.push(Doc { links: with_attr, newlines: false });
     run_list(
         ctx,
         rep,
         "directed-documents-all-faults",
-        "documents of 0..=3 links (with and without attributes, newline on/off): every write-call index x {fail once, fail persistently} x two sink flavours, each fault run counted as one evaluation",
+        "documents of 0..=3 links (with and without attributes, newline on/off) and three documents of 260..300 links: every write-call index x {fail once, fail persistently} x two sink flavours, each fault run counted as one evaluation",
         true,
         directed,
         check_faults,
